@@ -15,14 +15,14 @@ PROPS = {
                 "runIPServer listeners sharing the real timestamp store, gaps 10 ms..10 s (both sides of the 3 s interleave window), server clock offset from 0 to +-30 years with skew up to "
                 "+-100 ppm and steps between exchanges, worlds placed just before the 2036 era rollover, per-direction latency 0..21 ms plus long delays up to 2 s, drop/duplicate up to 30 %, "
                 "server-side missing/late kernel timestamps, optional ephemeral port reuse; non-trivial = at least two accepted exchanges were checked against ground truth; distinct = distinct event-log hash",
-        "required_probes": ["bound-checked", "interleaved-accepted", "basic-reply-to-interleaved-request", "measurement-failed", "near-era", "excluded-clock-step-inside-exchange"],
+        "required_probes": ["bound-checked", "interleaved-accepted", "basic-reply-to-interleaved-request", "measurement-failed", "near-era", "excluded-clock-step-inside-exchange", "scion-bound-checked", "scion-interleaved-accepted"],
         "components": {"real": ["core/client IPClient, MeasureClockOffsetIP", "core/server runIPServer, handleRequest, updateTXTimestamp", "net/udp (cmsg parsers, ReadTXTimestamp)", "net/ntp"],
                        "stub": dict(STUBS_COMMON, **{"kernel UDP stack": "simnet (sockets, SO_REUSEPORT group, control messages, error queue)"})},
         "assumptions": ["rounding allowance 16 ns (two truncating 2^-32 s conversions per timestamp and up to eight 1 ns receive-timestamp bumps)",
                         "the client's clock is the clock its context deadlines use (offset 0); the server clock carries the offset",
                         "exchanges during which the server clock stepped are excluded from the bound (counted as probe excluded-clock-step-inside-exchange)",
                         "client-side kernel timestamp faults are outside the property's quantifier and are not injected here",
-                        "SCION half of the property: see C13/C15 worlds (not covered by this check)"],
+                        "every 4th run is the SCION half: real SCIONClient against real runSCIONServer listeners through a relay router, optionally through the real end-host forwarder, same ground-truth oracle with datagrams followed hop by hop"],
     },
     "C05": {
         "level": "exploration",
@@ -299,7 +299,7 @@ PROPS["C19"].update(
     technique="deterministic simulation: scripted clock with injected steps, invariants on recorded actuation calls")
 PROPS["C03"].update(
     level_text="seeded exploration of exchange histories between the real IP client and the real IP listeners on a simulated network with loss, duplication, delay, reordering, clock offset/skew/steps and timestamp faults; for every accepted exchange the four combined timestamps are attributed to one exchange by the simulator's ground truth and the reported offset is compared with the true clock offset against half the true round-trip delay. Evidence, not proof.",
-    level_note="IP transport only in this check; trusts the simulated kernel (timestamps, error queue) and clocks; 16 ns rounding allowance",
+    level_note="IP (3/4 of the runs) and SCION (1/4) transports; trusts the simulated kernel (timestamps, error queue) and clocks; 16 ns rounding allowance",
     technique="deterministic simulation with fault injection: seeded network/clock faults, ground-truth oracle per accepted exchange")
 PROPS["C05"].update(
     level_text="seeded exploration with an on-path attacker: differential oracle - an offset may be reported only if the datagram the client consumed last satisfies the statement's predicate (source, origin echo, metadata, timestamps order, NTS identifier and AEAD recomputed independently), and an untouched exchange must succeed. Evidence, not proof.",
